@@ -4,8 +4,8 @@
 From IT Require Import model.PipelineInst proofs.PipelineProofs spec.ThresholdSpec proofs.ThresholdProofs proofs.ThresholdLoad model.Subst.
 
 Theorem C02_accept_implies_thresholds_met :
-  forall now truths tc tcc cmds fuel w path d layout_env keys step_name params inter s w' tr,
-    verify_inst now truths tc tcc cmds (S fuel) w path d layout_env keys step_name params inter = (Ok s, w', tr) ->
+  forall now truths tc tcc pems cmds fuel w path d layout_env keys step_name params inter s w' tr,
+    verify_inst now truths tc tcc pems cmds (S fuel) w path d layout_env keys step_name params inter = (Ok s, w', tr) ->
     exists layout0 layout loaded,
       e_payload layout_env = PLayout layout0 /\ substitute layout0 params = Ok layout /\
       load_all layout (ld_files d) = Ok loaded /\
@@ -14,7 +14,7 @@ Theorem C02_accept_implies_thresholds_met :
           counted_ids (vsig_tbl truths) (tbl_get_cert tc) (cc_tbl tcc) layout st (step_links loaded (s_name st)) ids /\
           (zlen ids >= s_threshold st)%Z /\ (1 <= length ids)%nat.
 Proof.
-  intros now truths tc tcc cmds fuel w path d layout_env keys step_name params inter s w' tr H.
+  intros now truths tc tcc pems cmds fuel w path d layout_env keys step_name params inter s w' tr H.
   unfold verify_inst in H. apply verify_ok_inv in H.
   destruct H as [l0 l loaded verified resolved reduced rl imeta w2 tr2 Hs Hp He Hsu Hc Hl Ht].
   exists l0, l, loaded.
